@@ -24,6 +24,10 @@ func main() {
 		run(os.Args[2:], true)
 	case "plan":
 		plan(os.Args[2:])
+	case "det":
+		det(os.Args[2:])
+	case "follow":
+		follow(os.Args[2:])
 	default:
 		fmt.Println("unknown command")
 		os.Exit(2)
@@ -114,5 +118,66 @@ func run(args []string, lab bool) {
 		}
 		enc.Encode(res)
 		fmt.Fprintf(os.Stderr, "CASE-END %s case=%d blocks=%d dead=%v viol=%d\n", *prop, i, res.BlocksRun, res.Dead, len(res.Violations))
+	}
+}
+
+func follow(args []string) {
+	fs := flag.NewFlagSet("follow", flag.ExitOnError)
+	file := fs.String("file", "", "recorded requests")
+	mingas := fs.String("mingas", "", "minimum gas prices")
+	iavl := fs.Int("iavl", 0, "iavl cache size")
+	pruning := fs.String("pruning", "", "pruning")
+	db := fs.String("db", "", "db backend")
+	fs.Parse(args)
+	if err := sim.Follow(*file, sim.AppOpts{MinGasPrice: *mingas, IAVLCache: *iavl, Pruning: *pruning}, *db); err != nil {
+		fmt.Fprintln(os.Stderr, "follow:", err)
+		os.Exit(1)
+	}
+}
+
+func det(args []string) {
+	fs := flag.NewFlagSet("det", flag.ExitOnError)
+	tier := fs.String("tier", "quick", "tier")
+	_ = fs.String("prop", "C01", "property")
+	seed := fs.Int64("seed", 1, "seed")
+	casesFlag := fs.String("cases", "", "comma separated case numbers")
+	only := fs.Int("only", -1, "run exactly this case")
+	out := fs.String("out", "", "output jsonl")
+	fs.Parse(args)
+	self, _ := os.Executable()
+	race := ""
+	if _, err := os.Stat(self + "-race"); err == nil {
+		race = self + "-race"
+	}
+	var list []int
+	for _, s := range strings.Split(*casesFlag, ",") {
+		if n, err := strconv.Atoi(s); err == nil {
+			list = append(list, n)
+		}
+	}
+	if *only >= 0 {
+		list = []int{*only}
+	}
+	w := os.Stdout
+	if *out != "" {
+		f, err := os.Create(*out)
+		if err != nil {
+			panic(err)
+		}
+		defer f.Close()
+		w = f
+	}
+	dir, err := os.MkdirTemp("", "vh-det-")
+	if err != nil {
+		panic(err)
+	}
+	defer os.RemoveAll(dir)
+	enc := json.NewEncoder(w)
+	d := sim.Props["C01"]
+	for _, i := range list {
+		fmt.Fprintf(os.Stderr, "CASE-START C01 seed=%d case=%d\n", *seed, i)
+		res := sim.RunDetCase(sim.CaseSpec{Prop: "C01", Tier: *tier, Seed: *seed, Case: i, Blocks: d.Blocks[*tier]}, self, race, dir)
+		enc.Encode(res)
+		fmt.Fprintf(os.Stderr, "CASE-END C01 case=%d blocks=%d viol=%d\n", i, res.BlocksRun, len(res.Violations))
 	}
 }
